@@ -466,7 +466,18 @@ func C08(tier string) int {
 			}
 		}
 	}
+	// Memory shared between the workers of a batch without synchronisation: see race.go.
+	raceReports, raceTotal, raceRan, err := racePass("C08")
+	if err != nil {
+		run.HarnessErr = err
+		return run.Finish()
+	}
+	for _, rr := range raceReports {
+		report("data-race:"+rr.Key, fmt.Sprintf("while batches and concurrent single requests are served, two goroutines of the signing path touch the same memory with no synchronisation between them (%s): what is signed depends on their timing. Race detector report:\n%s", rr.Key, rr.Text),
+			map[string]any{"check": "C08", "race": rr.Key})
+	}
 	run.Coverage = map[string]any{
+		"race_detector_pass":  map[string]any{"ran": raceRan, "reports": raceTotal, "reports_with_dirk_code_on_both_sides": len(raceReports), "bodies": "attestation batches and multisign of 2, 5 and 17 entries with 2, 4 and 8 processors (service level and through the handler), and four clients signing single requests (generic, attestation, proposal) side by side, free-running in a child built with -race"},
 		"evaluations":         cells,
 		"distinct_nontrivial": len(classes),
 		"rule":                "singles: attestation/proposal/generic requests over boundary values of slot, index, epochs, proposer index x 3 root fills x 2 domains x addressing with real BLS keys, every second request preceded by a request that fails while its signing root is computed (31-byte domain), plus accounts whose names contain slashes beside siblings named like their first component, verified with the BLS library against a signing root computed by an independent sha256 merkleisation; batches: attestation batches and multisign of every listed size x every listed GOMAXPROCS with per-entry data that is distinct as a whole while every single field (slot, committee index, roots, epochs; data and domain for multisign) is shared between some entries, mixed addressing, every fifth account of an attestation batch refused by the rules (it voted for a far later target before), symbolic keys (signature must be byte-equal to the addressed account's signature over the independent signing root; exactly n results and n signatures; signature i is not the one expected at i+1), every fourth size through the gRPC handler; reduced (n, procs) grid repeated with real BLS keys; distinct = request classes and (kind, n, procs) cells",
@@ -482,14 +493,63 @@ func C08(tier string) int {
 	return run.Finish()
 }
 
+// c08RaceBodies: the batch and single paths once more, free-running (see race.go).
+func c08RaceBodies() error {
+	old := runtime.GOMAXPROCS(0)
+	defer runtime.GOMAXPROCS(old)
+	r, err := rig.NewSignerRig(rig.SignerOpts{})
+	if err != nil {
+		return err
+	}
+	defer r.Close()
+	for _, p := range []int{2, 4, 8} {
+		for _, n := range []int{2, 5, 17} {
+			for _, kind := range []string{"atts", "multisign"} {
+				runtime.GOMAXPROCS(p)
+				_, _, err := c08Batch(r, kind, n, false, n == 5)
+				runtime.GOMAXPROCS(old)
+				if err != nil {
+					return err
+				}
+			}
+		}
+	}
+	runtime.GOMAXPROCS(4)
+	creds := &checker.Credentials{Client: rig.DefaultClient, RequestID: "r", IP: "10.0.0.1"}
+	var wg sync.WaitGroup
+	for c := 0; c < 4; c++ {
+		a := r.AddSymAccount("Wallet 1", "", "pass", true)
+		wg.Add(1)
+		go func(c int) {
+			defer wg.Done()
+			dom := make([]byte, 32)
+			dom[0] = 7
+			for i := 0; i < 6; i++ {
+				r.Signer.SignGeneric(r.Ctx, creds, "Wallet 1/"+a.Name(), nil, &rules.SignData{Domain: dom, Data: c08Root(byte(16*c + i))})
+				r.Signer.SignBeaconAttestation(r.Ctx, creds, "", a.PubBytes(), AttData(Ent{S: uint64(i), T: uint64(i + 1), Root: c + 1}))
+				r.Signer.SignBeaconProposal(r.Ctx, creds, "Wallet 1/"+a.Name(), nil, PropData(Ent{Slot: uint64(i + 1), Root: c + 1}))
+			}
+		}(c)
+	}
+	wg.Wait()
+	return nil
+}
+
 func init() {
 	Registry["C08"] = C08
+	RaceBodies["C08"] = c08RaceBodies
 	Replayers["C08"] = func(raw json.RawMessage) int {
 		var rp struct {
 			Kind  string `json:"kind"`
 			N     int    `json:"n"`
 			Procs int    `json:"procs"`
 			Real  bool   `json:"real_bls"`
+		}
+		var rr struct {
+			Race string `json:"race"`
+		}
+		if json.Unmarshal(raw, &rr) == nil && rr.Race != "" {
+			return replayRace("C08", rr.Race)
 		}
 		if err := json.Unmarshal(raw, &rp); err != nil || rp.N == 0 {
 			fmt.Println("this counterexample is a single request; re-run the check to reproduce it")
